@@ -120,13 +120,13 @@ Qed.
     `x = 1 + "\t\t\t"`: the literal occupies columns 8..16 of a 16-character line, its location says 8..22. *)
 Theorem string_col_end_refuted :
   exists (src : list Z) (items : list item) (t : token),
-    (forall xs xc : Z -> bool, lex xs xc true true src = Ok items) /\ In t (tokens_of items) /\
+    lex ascii_letter ascii_cont true true src = Ok items /\ In t (tokens_of items) /\
     tk_kind t = StrLit /\ ~ wf_loc (token_loc t) (normalize_newline src) /\
     known_c24 (normalize_newline src) (tokens_of items) (token_loc t) = true.
 Proof.
   exists [120;32;61;32;49;32;43;32;34;92;116;92;116;92;116;34]. eexists.
   exists (mk_token StrLit [34;32;32;32;32;32;32;32;32;32;32;32;32;34] 1 8 8).
-  split; [intros xs xc; vm_compute; reflexivity|]. split; [cbn; tauto|]. split; [reflexivity|].
+  split; [vm_compute; reflexivity|]. split; [cbn; tauto|]. split; [reflexivity|].
   split; [|vm_compute; reflexivity].
   intros H. apply wf_locb_iff in H. vm_compute in H. discriminate H.
 Qed.
